@@ -176,8 +176,9 @@ def main(argv=None):
             undecided.append(f"{fr['target']}: path budget exhausted")
         if fr.get("paths", 0) == 0 and not fr.get("unsupported"):
             errors.append(f"{fr['target']}: vacuity guard: no feasible path (contradictory precondition?)")
+        any_failed = any(o["status"] == "failed" for o in fr["obligations"])
         for cov, ok in (fr.get("covers") or {}).items():
-            if not ok:
+            if not ok and not any_failed:
                 errors.append(f"{fr['target']}: vacuity guard: antecedent of {cov} is never satisfiable")
         samples.extend(fr.get("samples", []))
         for ob in fr["obligations"]:
